@@ -287,6 +287,9 @@ func (sm *Str2Str) LoadFromMap(m map[string]string) error {
 
 // Get ...
 func (sm *Str2Str) Get(k string) (string, bool) {
+	if sm.strMap == nil { // not initialized and never loaded
+		return "", false
+	}
 	if idx, ok := sm.strMap.Get(k); ok {
 		v := sm.strStore.Get(idx)
 		// TODO: any check?
@@ -297,5 +300,8 @@ func (sm *Str2Str) Get(k string) (string, bool) {
 
 // Len returns the size of map
 func (sm *Str2Str) Len() int {
+	if sm.strMap == nil { // not initialized and never loaded
+		return 0
+	}
 	return sm.strMap.Len()
 }
